@@ -17,11 +17,13 @@ PROP = "C20"
 META = dict(
     technique="Coq proof (reals with the true cos; axiom-free integer schedule by strong induction) + coqc-evaluated IEEE model vs crate correspondence",
     text="Machine-checked (Coq 8.16.1): over the reals with the true cosine, Hann(p) = 0.5(1-cos 2 pi p) lies in [0,1], is symmetric about 1/2 where it is 1, is 0 at both ends, Rectangle is 1, and the window of n >= 2 frames samples the phases frac(i/(n-1)) (i/(n-1) for i < n-1; the last one wraps 1 -> 0 through `% 1.0`, where Hann takes the same value). Axiom-free, for every frame count L, bin >= 1, hop >= 1: the Windower model (next and size_hint written after the source) yields exactly (L-b)/h+1 chunks if b <= L else none, chunk k is frames[k*h .. k*h+b-1], never panics, and size_hint equals the number of chunks still to come in every state; the j-th frame of a Windowed chunk is mul_amp(frame j, window value j). The model is tied to the crates by running its IEEE instance (binary64 phases, f32/f64/i16 frames) inside coqc on the same cases and comparing phases, window frames, chunk contents, size hints and chunk counts exactly; cos goes through libm and is compared against math.cos with a 4-ulp tolerance.",
-    note="Trusted: Coq kernel; the hand-written model (slices as lists, usize as nat); Base/Float.v (validated against rustc in the same run); harness + python generators. Axioms: the standard real-number axioms for the R theorems only; the schedule theorems are closed. In floating point the last sampled phase is whatever (n-1) additions of fl(1/(n-1)) give after `% 1.0` (0 or just below 1): covered by the exact comparison of phases, not by the R theorem.",
+    note="The provided Iterator methods (last, nth, count, fold, skip, step_by, collect, by_ref) of Windower / Window / Windowed are modelled as their core::iter defaults over next, proved to give chunk count-1 / chunk k / count, and exercised in the correspondence (the cases are transported into coqc as uint63 literals, Signal/WindowWire.v). Trusted: Coq kernel; the hand-written model (slices as lists, usize as nat); Base/Float.v (validated against rustc in the same run); harness + python generators. Axioms: the standard real-number axioms for the R theorems only; the schedule theorems are closed. In floating point the last sampled phase is whatever (n-1) additions of fl(1/(n-1)) give after `% 1.0` (0 or just below 1): covered by the exact comparison of phases, not by the R theorem.",
     design="6/C20")
 HEADER = "From Dasp Require Import Signal.WindowRun."
 CHECK = "check"
 
+HEADER63 = "From Dasp Require Import Signal.WindowWire.\nRequire Import Uint63."
+CHECK63 = "check63"
 WK = ["WHann", "WRect"]
 FK = ["KF32", "KF64", "KI16"]
 PI2 = math.pi * 2.0
@@ -84,12 +86,86 @@ def build(item, ops=None):
         z = F.zlit
         it["coq"] = "WCase %s %s %s %s %s %s %s" % (WK[it["wk"]], FK[it["fk"]], z(it["nch"]), z(it["b"]), z(it["h"]),
                                                    z(it["maxn"]), F.zlistlist(fr))
+    elif it["kind"] == "I":
+        if ops is not None:
+            it["ops"] = ops
+        fr = it["frames"]
+        flat = [s for f in fr for s in f]
+        # number of window phases/values to tabulate: every index the w* ops reach
+        pos, top = 0, 0
+        for o in it["ops"]:
+            if o[0] == "wnth":
+                top = max(top, pos + o[1]); pos += o[1] + 1
+            elif o[0] == "wskip":
+                top = max(top, pos + o[1])
+            elif o[0] == "wtakelast":
+                top = max(top, pos + o[1])
+            elif o[0] == "wstepby":
+                top = max(top, pos + o[1] * o[2])
+            elif o[0] in ("cnth", "cskip", "ctakelast"):
+                top = max(top, o[1] + 2)
+        it["np"] = max(top, it["b"]) + 2  # chunks are observed through bin+1 frames
+        it["line"] = "I %d %d %d %d %d %d %d %s ; %s" % (
+            it["wk"], it["fk"], it["nch"], it["b"], it["h"], it["np"], len(fr), " ".join(map(str, flat)),
+            " , ".join(" ".join(map(str, o)) for o in it["ops"]))
+        z = F.zlit
+        it["coq"] = "ICase %s %s %s %s %s %s %s [%s]" % (
+            WK[it["wk"]], FK[it["fk"]], z(it["nch"]), z(it["b"]), z(it["h"]), z(it["np"]), F.zlistlist(fr),
+            "; ".join(IOP[o[0]] + "".join(" " + z(a) for a in o[1:]) for o in it["ops"]))
     else:
         it["ops"] = []
         it["line"] = "H %d %s %d %s" % (len(it["ps"]), " ".join(map(str, it["ps"])), len(it["qs"]),
                                        " ".join(map(str, it["qs"])))
         it["coq"] = "HCase %s %s" % (F.zlist(it["ps"]), F.zlist(it["qs"]))
     return it
+
+
+IOP = {"next": "INext", "nth": "INth", "last": "ILast", "lastref": "ILastRef", "count": "ICount",
+       "countref": "ICountRef", "skip": "ISkip", "stepby": "IStepBy", "collect": "ICollect", "fold": "IFold",
+       "wnth": "IWinNth", "wskip": "IWinSkip", "wtakelast": "IWinTakeLast", "wstepby": "IWinStepBy",
+       "cnth": "IChunkNth", "cskip": "IChunkSkip", "ctakelast": "IChunkTakeLast"}
+
+
+def rand_iop(r, cnt):
+    k = r.below(20)
+    small = lambda: r.choice([0, 0, 1, 1, 2, 3, max(0, cnt - 1), cnt, cnt + 1])
+    if k < 3:
+        return ["last"]
+    if k < 5:
+        return ["nth", small()]
+    if k < 7:
+        return ["skip", small()]
+    if k == 7:
+        return ["count"]
+    if k == 8:
+        return ["fold"]
+    if k == 9:
+        return ["next"]
+    if k == 10:
+        return ["stepby", r.range(1, 4), r.range(0, 4)]
+    if k == 11:
+        return ["collect"] if cnt <= 6 else ["count"]
+    if k == 12:
+        return r.choice([["lastref"], ["countref"]])
+    if k == 13:
+        return ["wnth", r.range(0, 4)]
+    if k == 14:
+        return ["wskip", r.range(0, 5)]
+    if k == 15:
+        return ["wtakelast", r.range(0, 5)]
+    if k == 16:
+        return ["wstepby", r.range(1, 3), r.range(0, 4)]
+    if k == 17:
+        return ["cnth", r.range(0, 4)]
+    if k == 18:
+        return ["cskip", r.range(0, 4)]
+    return ["ctakelast", r.range(0, 5)]
+
+
+def icase(r, combo, L, b, h, ops):
+    wk, fk, nch = combo
+    frames = [[rand_sample(r, fk) for _ in range(nch)] for _ in range(L)]
+    return build(dict(kind="I", wk=wk, fk=fk, nch=nch, b=b, h=h, frames=frames, ops=ops))
 
 
 def rand_sample(r, fk):
@@ -161,6 +237,29 @@ def gen_cases(rng, tier):
                     continue
                 add(L, b, h, maxn=min(L + 3, 5))
     n_w = len(items)
+    # 3b. the provided Iterator methods (last, nth, count, skip, step_by, fold, collect, by_ref) on Windower,
+    #     Window and Windowed; (L - b) % h != 0 prominent: there the last chunk does not end at the last frame
+    fixed = [["last"], ["count"], ["fold"], ["skip", 1], ["nth", 1], ["last"], ["stepby", 2, 3], ["cnth", 1],
+             ["lastref"], ["next"], ["last"], ["count"]]
+    for L in range(0, 15 if tier == "quick" else 25):
+        for b in (1, 2, 3, 4) if tier == "quick" else (1, 2, 3, 4, 5, 7):
+            for h in (1, 2, 3, 5) if tier == "quick" else (1, 2, 3, 4, 5, 6, 9):
+                if tier == "quick" and (L + b + h) % 2 == 1 and (L < b or (L - b) % h == 0):
+                    continue
+                items.append(icase(rng.fork(f"i{len(items)}"), combo(), L, b, h, fixed))
+    for k in range(250 if tier == "quick" else 4000):
+        r = rng.fork(f"it{k}")
+        b = r.choice([1, 2, 2, 3, 3, 4, 5, 6, 7, 8, 9])
+        h = r.range(1, 12)
+        L = r.range(0, 30)
+        if r.chance(7, 10):  # force a partial last hop with at least two chunks
+            h = max(h, 2)
+            L = b + h * r.range(1, 4) + r.range(1, h - 1)
+        nchunks = expected_count(L, b, h)
+        ops = [r.choice([["last"], ["nth", max(0, nchunks - 1)], ["skip", max(0, nchunks - 1)], ["count"]])]
+        ops += [rand_iop(r, nchunks) for _ in range(r.range(3, 8))]
+        items.append(icase(r, combo(), L, b, h, ops))
+    n_i = len(items)
     # 4. dasp_window functions through the trait
     for k in range(30 if tier == "quick" else 300):
         r = rng.fork(f"h{k}")
@@ -175,7 +274,7 @@ def gen_cases(rng, tier):
     for i in range(len(items) - 1, 0, -1):
         j = sh.below(i + 1)
         items[i], items[j] = items[j], items[i]
-    return items, dict(grid=n_grid, big_and_offdomain=n_w - n_grid, window_fn=len(items) - n_w)
+    return items, dict(grid=n_grid, big_and_offdomain=n_w - n_grid, iterator_methods=n_i - n_w, window_fn=n_w2 - n_i)
 
 
 def expected_count(L, b, h):
@@ -183,6 +282,9 @@ def expected_count(L, b, h):
 
 
 def nontrivial(it):
+    if it["kind"] == "I":
+        L = len(it["frames"])
+        return it["b"] >= 2 and L >= it["b"] + it["h"]
     if it["kind"] != "W" or it["b"] < 2 or it["h"] < 1:
         return False
     L = len(it["ops"])
@@ -195,6 +297,26 @@ def verdict(it, obs):
     o = F.parse_obs_line(obs)
     by = {l[0]: l[1:] for l in o if l and l[0] >= 100}
     problems = []
+    if it["kind"] == "I":
+        if it["wk"] == 0:
+            for p, v in zip(by.get(100, []), by.get(101, [])):
+                if not hann_ok(p, v):
+                    problems.append(f"Hann window value at phase {b2f64(p)!r} = {b2f64(v)!r} outside the 4-ulp oracle interval")
+        # the first op runs on the fresh windower: count / size_hint against the property's formula
+        L, b, h = len(it["frames"]), it["b"], it["h"]
+        exp = expected_count(L, b, h)
+        seq = [l for l in o if l and l[0] < 100]
+        if it["ops"] and it["ops"][0][0] in ("count", "fold") and seq and seq[0] != [4, exp]:
+            problems.append(f"count() on the fresh windower = {seq[0][1:]}, the property says {exp}")
+        if it["ops"] and it["ops"][0][0] == "last" and seq and seq[0][0] == 2 and exp > 0 and it["wk"] == 1 and it["fk"] == 2:
+            # rectangle window on i16 frames: mul_amp by 1.0 is exact, so last() must show frames (count-1)*h .. +b-1
+            want = [s_ for f in it["frames"][(exp - 1) * h:(exp - 1) * h + b] for s_ in f]
+            if seq[0][1:1 + len(want)] != want:
+                problems.append(f"last() on the fresh windower starts with {seq[0][1:1 + len(want)]}, the last chunk "
+                                f"(number {exp - 1}, frames {(exp - 1) * h}..{(exp - 1) * h + b - 1}) is {want}")
+        if it["ops"] and it["ops"][0][0] == "last" and seq and (seq[0][0] == 2) != (exp > 0):
+            problems.append(f"last() on the fresh windower is {'Some' if seq[0][0] == 2 else 'None'}, the property says {exp} chunks")
+        return problems
     if it["kind"] == "H":
         ph = [f64b(float(b2f32(p))) for p in it["ps"]]
         for p, v in zip(ph, by.get(110, [])):
@@ -244,6 +366,59 @@ def verdict(it, obs):
     return problems
 
 
+# ---------------------------------------------------------------------------
+# transport into coqc: primitive 63-bit literals (Signal/WindowWire.v decodes them); parsing Z literals
+# cost 2-3x more than evaluating the model
+
+T61, T62 = 1 << 61, 1 << 62
+OPCODE = {k: i for i, k in enumerate(["next", "nth", "last", "lastref", "count", "countref", "skip", "stepby", "collect",
+                                      "fold", "wnth", "wskip", "wtakelast", "wstepby", "cnth", "cskip", "ctakelast"])}
+
+
+def wtoks(v):
+    v = int(v)
+    if 0 <= v < T61:
+        return [v]
+    if -T61 < v < 0:
+        return [T61 - v]
+    assert T61 <= v < (1 << 123)
+    return [T62 + (v >> 62), v & (T62 - 1)]
+
+
+def wl(xs):
+    return "[" + "; ".join(str(t) for x in xs for t in wtoks(x)) + "]"
+
+
+def wll(xss):
+    return "[" + "; ".join(wl(x) for x in xss) + "]"
+
+
+def wire_term(it, obs):
+    if it["kind"] == "W":
+        k, hdr, data, ops = 0, [it[x] for x in ("wk", "fk", "nch", "b", "h", "maxn")], it["ops"], []
+    elif it["kind"] == "H":
+        k, hdr, data, ops = 1, [], [it["ps"], it["qs"]], []
+    else:
+        k, hdr, data = 2, [it[x] for x in ("wk", "fk", "nch", "b", "h", "np")], it["frames"]
+        ops = [[OPCODE[o[0]]] + list(o[1:]) for o in it["ops"]]
+    return f"(({k}, {wl(hdr)}, {wll(data)}, {wll(ops)}, {wll(obs)})%uint63)"
+
+
+def correspond63(binpath, items, tag):
+    """F.correspond with the cases transported as uint63 literals"""
+    rc, outl, err = F.run_bin_parallel(binpath, [it["line"] for it in items])
+    if rc != 0 or len(outl) != len(items):
+        return outl, [], [("harness", f"rc={rc} lines={len(outl)}/{len(items)} stderr={err[-1500:]}")]
+    terms = []
+    for it, o in zip(items, outl):
+        try:
+            terms.append(wire_term(it, F.norm_obs_line(o)))
+        except ValueError:
+            return outl, [], [("harness", f"unparsable observation line {o[:200]!r} for {it['line'][:200]!r}")]
+    bad, cerrs = F.coq_check_cases(tag, HEADER63, CHECK63, terms, per_file=max(40, (len(terms) + F.NCPU - 1) // F.NCPU))
+    return outl, bad, cerrs
+
+
 def load_corpus():
     d = os.path.join(F.VERIF, "corpus", PROP)
     items = []
@@ -255,7 +430,7 @@ def load_corpus():
 
 
 def case_dict(it):
-    return {k: it[k] for k in ("kind", "wk", "fk", "nch", "b", "h", "maxn", "ops", "ps", "qs") if k in it}
+    return {k: it[k] for k in ("kind", "wk", "fk", "nch", "b", "h", "maxn", "ops", "frames", "ps", "qs") if k in it}
 
 
 def main(rep, tier, seed):
@@ -273,7 +448,7 @@ def main(rep, tier, seed):
     corpus = load_corpus()
     items, parts = gen_cases(rng, tier)
     items = corpus + items
-    outl, bad, errors = F.correspond(binpath, items, HEADER, CHECK, "c20")
+    outl, bad, errors = correspond63(binpath, items, "c20")
     rep.extra["no_std_build"] = F.nostd_phase(rep, "c20", items, outl) if not errors and len(outl) == len(items) else {}
     rep.extra["build_profiles"] = F.profile_phase(rep, "c20", items, outl, profiles=("release",)) if not errors and len(outl) == len(items) else {}
     for name, msg in errors:
@@ -296,10 +471,10 @@ def main(rep, tier, seed):
         it = items[idx]
 
         def fails(c):
-            o, b, e = F.correspond(binpath, [c], HEADER, CHECK, "c20_shrink")
+            o, b, e = correspond63(binpath, [c], "c20_shrink")
             return bool(b) and not e
 
-        small = F.shrink_ops(it, build, fails, max_steps=30) if it["kind"] == "W" else it
+        small = F.shrink_ops(it, build, fails, max_steps=30) if it["kind"] in ("W", "I") else it
         rc, out, _ = F.run_bin(binpath, [small["line"]])
         _, model = F.coq_eval("c20", HEADER, f"run_case ({small['coq']}) {F.zlistlist(F.norm_obs_line(out[0]) if out else [])}")
         rep.violation(f"case{idx}", {
@@ -315,6 +490,14 @@ def main(rep, tier, seed):
 
     last_phase = {}
     for it, o in zip(items, outl):
+        if it["kind"] == "I":
+            L, b, h = len(it["frames"]), it["b"], it["h"]
+            bump("class", "iterator_methods:" + ("L<b" if L < b else "one_chunk" if L < b + h else
+                                                 "partial_last_hop" if (L - b) % h else "exact_last_hop"))
+            for o_ in it["ops"]:
+                hist.setdefault("iterator_ops", {})
+                bump("iterator_ops", o_[0])
+            continue
         if it["kind"] != "W":
             bump("class", "window_fn")
             continue
@@ -353,9 +536,9 @@ def finish(rep, info, n, nontriv, dist, samples, bad=(), vbad=(), fb=(0, 0)):
             "libm cos: taken from the implementation as data in the model run; validated against python math.cos (same glibc) with a 4-ulp tolerance on the cos value"],
         "theorems": th, "axioms_reported": info.get("axioms", []),
         "evaluations": n, "distinct_nontrivial": nontriv,
-        "rule": "grid L=0..40 x bin=2..9 x hop (quick: structured subset {1,b,L-b,L,L+1}+{2,L-b+1} or {b+1,L-1,45}+2 random, hop 1 and 2 only for L<=20 or L%4=0; thorough: all 1..45), window and frame format rotating over {Hann,Rectangle} x {f32,f64,i16} x {1,2 channels}; plus larger random (L<=150, bin<=64), off-domain (bin<2, hop=0) and window-function cases; non-trivial = bin>=2, hop>=1 and (L >= bin+hop, i.e. at least two chunks, or L == bin)",
+        "rule": "grid L=0..40 x bin=2..9 x hop (quick: structured subset {1,b,L-b,L,L+1}+{2,L-b+1} or {b+1,L-1,45}+2 random, hop 1 and 2 only for L<=20 or L%4=0; thorough: all 1..45), window and frame format rotating over {Hann,Rectangle} x {f32,f64,i16} x {1,2 channels}; plus larger random (L<=150, bin<=64), off-domain (bin<2, hop=0), window-function cases and provided-Iterator-method cases (last, nth, count, fold, skip, step_by, collect, by_ref().last()/count() on Windower with size_hint after every op; nth, skip, take(n).last(), step_by on Window and Windowed; 70% of them with (L-bin) % hop != 0 and at least two chunks); non-trivial = bin>=2, hop>=1 and (L >= bin+hop, i.e. at least two chunks, or L == bin)",
         "samples": samples, "input_distribution": dist, "disagreements": len(bad), "verdict_failures": len(vbad),
-        "explanation": "theorems: window shape over R with the true cos, sampled phases, chunk count / chunk position / size_hint for all L, bin>=1, hop>=1 by induction; tie: the model's IEEE instance run by coqc on the same cases as the real crates, every observation compared exactly except libm cos (4-ulp oracle)",
+        "explanation": "theorems: window shape over R with the true cos, sampled phases, chunk count / chunk position / size_hint for all L, bin>=1, hop>=1 by induction, last()/nth(k)/count() of the model iterator (defaults of core::iter over next) = chunk count-1 / chunk k / count; tie: the model's IEEE instance run by coqc on the same cases as the real crates, every observation compared exactly except libm cos (4-ulp oracle)",
     }
     return rep.finish("proof", cov, [
         "Rust slices are modelled as lists and usize as unbounded nat",
@@ -372,7 +555,9 @@ def replay(path):
     print("case:", it["line"])
     print("implementation:", out)
     print("model:", model)
-    o, bad, errs = F.correspond(binpath, [it], HEADER, CHECK, "c20_replay")
+    o, bad, errs = correspond63(binpath, [it], "c20_replay")
+    o2, bad2, errs2 = F.correspond(binpath, [it], HEADER, CHECK, "c20_replay_z")  # the same through plain Z literals
+    bad, errs = bad + bad2, errs + errs2
     pr = verdict(it, out[0]) if out else ["no output"]
     for p in pr:
         print("verdict:", p)
